@@ -26,6 +26,9 @@ def run_case(case):
     if early is not None:
         return early
     m, V, res, tr, w, ast = ctx["m"], ctx["V"], ctx["res"], ctx["tr"], ctx["w"], ctx["ast"]
+    if not tr.instrumented:
+        # C05 is about the candidates themselves; without the per-attempt instrumentation nothing can be judged
+        return {"outcome": "skip", "reason": "instrumentation-missing:UCSolutionEnumerator candidate hooks"}
     base = c06.base_of(ctx, case)
     keys = {}
     for a in tr.attempts:
